@@ -9,7 +9,7 @@ from ..refs import coapwire as cw, oscore as O
 SERVER = "10.0.0.2:5683"
 
 
-def conf_text(secret, salt, sid, rid, idctx=None, b12=False, win=32, ssn=1):
+def conf_text(secret, salt, sid, rid, idctx=None, b12=False, win=32, ssn=1, b2=False):
     t = 'master_secret,hex,"%s"\n' % secret.hex()
     if salt:
         t += 'master_salt,hex,"%s"\n' % salt.hex()
@@ -18,6 +18,8 @@ def conf_text(secret, salt, sid, rid, idctx=None, b12=False, win=32, ssn=1):
         t += 'id_context,hex,"%s"\n' % idctx.hex()
     t += 'replay_window,integer,%d\nssn_freq,integer,%d\nrfc8613_b_1_2,bool,%s\n' % (
         win, ssn, "true" if b12 else "false")
+    if b2:
+        t += 'rfc8613_b_2,bool,true\n'
     return t.encode().hex()
 
 
